@@ -347,7 +347,7 @@ func dialRaw(ctx context.Context, url string, cfg *uasc.Config) (*rawClient, err
 		conn.Close()
 		return nil, err
 	}
-	octx, cancel := context.WithTimeout(ctx, 5*time.Second)
+	octx, cancel := context.WithTimeout(ctx, openTimeout)
 	defer cancel()
 	if err := sc.Open(octx); err != nil {
 		conn.Close()
@@ -365,6 +365,9 @@ func (c *rawClient) close() {
 }
 
 var errTimeout = fmt.Errorf("timeout")
+
+// openTimeout bounds OpenSecureChannel in dialRaw (a refused secured OPN is only seen as a timeout or EOF by the client)
+var openTimeout = 5 * time.Second
 
 func (c *rawClient) call(req ua.Request, tok *ua.NodeID, timeout time.Duration) (ua.Response, error) {
 	ctx, cancel := context.WithTimeout(context.Background(), timeout)
